@@ -623,6 +623,7 @@ class Message:
         if message_type == Message.MessageType.RESPONSE_REJECT:
             # Assume a simple reject message
             instance = Simple_Reject(ErrorCode(payload[0]))
+            instance.payload = payload
         else:
             instance = Message()
             instance.payload = payload
